@@ -153,6 +153,11 @@ pub struct Observed {
     pub depth_after: usize,
     pub laddr: usize,
     pub raddr: usize,
+    /// where the step left the instruction cursor, and whether it reported that the program goes on
+    pub cursor_after: usize,
+    pub running: bool,
+    /// the instruction after the one that was stepped
+    pub expected_cursor: usize,
 }
 
 /// one matrix entry in a fresh world: operands materialised through the data interface, the single
@@ -163,6 +168,7 @@ pub fn run_entry<D: GD>(d: &mut D, instr: Instruction, l: Option<&Val>, r: &Val)
     d.push_to_jump_table(0).map_err(e)?;
     d.push_instruction(Instruction::EndExpression, None).map_err(e)?;
     d.push_instruction(instr, None).map_err(e)?;
+    d.push_instruction(Instruction::EndExpression, None).map_err(e)?;
     d.push_instruction(Instruction::EndExpression, None).map_err(e)?;
     let unit = d.add_unit().map_err(e)?;
     d.push_value_stack(unit).map_err(e)?;
@@ -176,6 +182,8 @@ pub fn run_entry<D: GD>(d: &mut D, instr: Instruction, l: Option<&Val>, r: &Val)
     d.set_instruction_cursor(1).map_err(e)?;
     let depth_before = d.get_register_len();
     let res = step(d);
+    let running = res == StepResult::Running;
+    let cursor_after = d.get_instruction_cursor();
     let status = match res {
         StepResult::Running | StepResult::End => Status::Ok,
         StepResult::Err { unsupported: true, .. } => Status::ErrUnsupported,
@@ -184,7 +192,7 @@ pub fn run_entry<D: GD>(d: &mut D, instr: Instruction, l: Option<&Val>, r: &Val)
     };
     let depth_after = d.get_register_len();
     let top = if depth_after > 0 { d.get_register(depth_after - 1).map(|a| read_val(d, a)) } else { None };
-    Ok(Observed { status, top, depth_before, depth_after, laddr: if l.is_some() { laddr } else { raddr }, raddr })
+    Ok(Observed { status, top, depth_before, depth_after, laddr: if l.is_some() { laddr } else { raddr }, raddr, cursor_after, running, expected_cursor: 2 })
 }
 
 // -------------------------------------------------------------------------------------------
@@ -294,6 +302,9 @@ pub enum HostMode {
     Declining,
     Accepting,
     Failing,
+    /// accepting, and after an accepted Apply / EmptyApply the host leaves the cursor on the next instruction
+    /// (what a host that ran an expression of its own inside the callback leaves behind)
+    AcceptingNested,
 }
 
 #[derive(Clone, Debug, Serialize, Deserialize)]
@@ -315,9 +326,10 @@ fn script_for(mode: HostMode) -> HostScript {
     let mut s = HostScript::default();
     s.defer_default = Some(match mode {
         HostMode::Absent | HostMode::Declining => Answer::Decline,
-        HostMode::Accepting => Answer::Unique,
+        HostMode::Accepting | HostMode::AcceptingNested => Answer::Unique,
         HostMode::Failing => Answer::Fail,
     });
+    s.leaves_cursor_after_apply = mode == HostMode::AcceptingNested;
     s
 }
 
@@ -379,7 +391,7 @@ fn judge(instr: Instruction, lt: Option<GarnishDataType>, rt: GarnishDataType, m
                         return Some(("C08.P3.depth".into(), format!("{label}: operand depth {} -> {}, expected {}", o.depth_before, o.depth_after, o.depth_before + 1 - arity)));
                     }
                 }
-                HostMode::Accepting => {
+                HostMode::Accepting | HostMode::AcceptingNested => {
                     if o.status != Status::Ok {
                         return Some(("C08.P4.accepted-is-not-ok".into(), format!("{label}: host accepted, step returned {:?}", o.status)));
                     }
@@ -390,6 +402,14 @@ fn judge(instr: Instruction, lt: Option<GarnishDataType>, rt: GarnishDataType, m
                         return Some(("C08.P4.depth".into(), format!("{label}: operand depth {} -> {}, expected {}", o.depth_before, o.depth_after, o.depth_before + 1 - arity)));
                     }
                 }
+            }
+            // whatever the host answered, the program goes on with the instruction that follows (matrix entries:
+            // the operation sits at instruction 1 with two more behind it)
+            if o.status == Status::Ok && (!o.running || o.cursor_after != o.expected_cursor) {
+                return Some((
+                    "C08.P9.next-instruction".into(),
+                    format!("{label}: after the deferred operation the cursor is at {} ({}), expected instruction {}", o.cursor_after, if o.running { "running" } else { "ended" }, o.expected_cursor),
+                ));
             }
             if let Some(t) = absent_twin {
                 if t.status != o.status || t.top != o.top || t.depth_after != o.depth_after {
@@ -483,6 +503,7 @@ fn matrix<D: SimData>(mode: HostMode, instr: Instruction, only: Option<(usize, u
         HostMode::Absent => "matrix-host-absent",
         HostMode::Declining => "matrix-host-declining",
         HostMode::Accepting => "matrix-host-accepting",
+        HostMode::AcceptingNested => "matrix-host-accepting-after-a-nested-run",
         HostMode::Failing => "matrix-host-failing",
     });
 }
@@ -490,6 +511,7 @@ fn matrix<D: SimData>(mode: HostMode, instr: Instruction, only: Option<(usize, u
 fn program<D: SimData>(mode: HostMode, src: &str, input: &Val, script: &HostScript, out: &mut Outcome, th: &mut Fnv) {
     let mut script = script.clone();
     script.defer_default = script_for(mode).defer_default;
+    script.leaves_cursor_after_apply = mode == HostMode::AcceptingNested;
     let mut d = D::create(Host::new(script), &Knobs::default()).expect("world");
     d.host_mut().recording = false;
     let built = match compile(&mut d, src) {
@@ -531,6 +553,7 @@ fn program<D: SimData>(mode: HostMode, src: &str, input: &Val, script: &HostScri
         };
         let depth_before = d.get_register_len();
         let frames_before = d.frames().len();
+        let pc = d.get_instruction_cursor();
         let res = step(&mut d);
         th.str(res.tag());
         let status = match &res {
@@ -552,7 +575,7 @@ fn program<D: SimData>(mode: HostMode, src: &str, input: &Val, script: &HostScri
                 let top = if depth_after > 0 { d.get_register(depth_after - 1).map(|a| read_val(&d, a)) } else { None };
                 // a call changes the frame: depth bookkeeping is only judged when no frame was pushed
                 let same_frame = d.frames().len() == frames_before;
-                let o = Observed { status: status.clone(), top, depth_before, depth_after: if same_frame { depth_after } else { depth_before + 1 - if lt.is_some() { 2 } else { 1 } }, laddr, raddr };
+                let o = Observed { status: status.clone(), top, depth_before, depth_after: if same_frame { depth_after } else { depth_before + 1 - if lt.is_some() { 2 } else { 1 } }, laddr, raddr, cursor_after: d.get_instruction_cursor(), running: res == StepResult::Running, expected_cursor: pc + 1 };
                 let calls: Vec<HostCall> = d.host().log[log_before.min(d.host().log.len())..].to_vec();
                 let label = format!("program {:?} step {:?}", src, instr);
                 // the accepting host's marker is numbered by call order
@@ -617,7 +640,7 @@ impl Campaign for C08 {
 
     fn generate(&self, rng: &mut Rng, _tier: Tier, _index: u64) -> Sc08 {
         let basic = rng.chance(1, 2);
-        let mode = *rng.pick(&[HostMode::Declining, HostMode::Declining, HostMode::Accepting, HostMode::Failing]);
+        let mode = *rng.pick(&[HostMode::Declining, HostMode::Declining, HostMode::Accepting, HostMode::Failing, HostMode::AcceptingNested]);
         let budget = rng.range(2, 24);
         let mut cfg = GenCfg::full(budget);
         cfg.ident_leaf_pct = 50;
@@ -714,7 +737,7 @@ impl Campaign for C08 {
         // workload A: the complete matrix, in every run of the check
         let mut v = vec![];
         for basic in [false, true] {
-            for mode in [HostMode::Absent, HostMode::Declining, HostMode::Accepting, HostMode::Failing] {
+            for mode in [HostMode::Absent, HostMode::Declining, HostMode::Accepting, HostMode::Failing, HostMode::AcceptingNested] {
                 for i in BINARY.iter().filter(|i| **i != Instruction::Invalid).chain(UNARY.iter()) {
                     v.push(Sc08::Matrix { basic, mode, instr: format!("{:?}", i), only: None });
                 }
